@@ -237,6 +237,9 @@ func leakKind(what string) string {
 // RunC15 explores the play grid; every state is rendered for every viewer.
 func RunC15(rep *explore.Report, tier string) {
 	rep.Set("rule", "every reachable state of the play grid x every viewer (each seat, the observer): JSON clone, AsPlayer/AsObserver, field-agnostic scan of every string value for hidden card tokens, other seats' evaluation absent, everything else equal to the unredacted state; distinct_nontrivial = views rendered")
+	if RunScenes(rep, tier, Visitors["C15"], GridOpts{Property: "C15"}) {
+		return
+	}
 	grid := PlayGrid(tier)
 	if tier != "thorough" {
 		// redaction does not depend on bet sizes: the quick tier explores the same
